@@ -66,7 +66,7 @@ def main():
         json.dump(man, f, indent=1)
     print("MANIFEST.json: %d checks, %d not_applicable" % (len(checks), len(na)))
 
-HOOK_COMMITS = ["74c5854", "9680b38", "6d5594b", "5be1350"]
+HOOK_COMMITS = ["74c5854", "9680b38", "6d5594b", "5be1350", "e133c23"]
 
 if __name__ == "__main__":
     main()
